@@ -571,6 +571,46 @@ def sec_mermaid(m):
             for nm in ("DEFAULT_NODE_TEMPLATE", "DEFAULT_EDGE_TEMPLATE", "DEFAULT_EDGE_TEMPLATE_TYPED")]
 
 
+def sec_export(m):
+    # C17: the line skeletons yielded by the DOT / Mermaid generators, in source order:
+    #     string literals verbatim, every {placeholder} of an f-string as code point 0, any other expression as [1]
+    mermaid, dot = m["mermaid"], m["dot"]
+    lines = []
+
+    def yield_skeletons(fn):
+        ys = sorted((n for n in ast.walk(fn) if isinstance(n, ast.Yield)), key=lambda n: (n.lineno, n.col_offset))
+        out = []
+        for y in ys:
+            v = y.value
+            if isinstance(v, ast.Constant) and isinstance(v.value, str):
+                out.append(v.value)
+            elif isinstance(v, ast.JoinedStr):
+                parts = []
+                for part in v.values:
+                    if isinstance(part, ast.Constant) and isinstance(part.value, str):
+                        if "\x00" in part.value or "\x01" in part.value:
+                            raise Unsupported("control character in a yielded literal")
+                        parts.append(part.value)
+                    elif isinstance(part, ast.FormattedValue):
+                        parts.append("\x00")
+                    else:
+                        raise Unsupported(f"f-string part at line {v.lineno}")
+                out.append("".join(parts))
+            else:
+                out.append("\x01")
+        return out
+
+    for nm, fn in (("MERMAID_YIELDS", func_def(mermaid, "_node_to_mermaid_flowchart_iter")), ("DOT_YIELDS", func_def(dot, "node_to_dot"))):
+        lines.append(f"Definition {nm} : list (list Z) := [" + "; ".join(text(x) for x in yield_skeletons(fn)) + "].")
+    dot_fn = func_def(dot, "node_to_dot")
+    ind = [n.value for n in dot_fn.body if isinstance(n, ast.Assign) and len(n.targets) == 1
+           and isinstance(n.targets[0], ast.Name) and n.targets[0].id == "indent"]
+    if len(ind) != 1:
+        raise Unsupported("node_to_dot: indent = <literal> not found")
+    lines.append(f"Definition DOT_INDENT : list Z := {text(const_str(ind[0]))}.")
+    return lines
+
+
 def sec_lock(m):
     tree, typed, fs, dot = m["tree"], m["typed"], m["fs"], m["dot"]
     tcls = class_def(tree, "Tree")
@@ -615,6 +655,7 @@ SECTIONS = [
     ("FS", sec_fs, ["fs"]),
     ("ENUMS", sec_enums, ["common", "diff"]),
     ("MERMAID", sec_mermaid, ["mermaid"]),
+    ("EXPORT", sec_export, ["mermaid", "dot"]),
     ("LOCK", sec_lock, ["tree", "typed", "fs", "dot", "node"]),
 ]
 FILES = dict(common="common.py", tree="tree.py", typed="typed_tree.py", fs="fs.py", diff="diff.py", mermaid="mermaid.py",
